@@ -261,6 +261,48 @@ func checkC11(c *h.Check) {
 			}
 		}
 	}
+	// two distinct named interfaces with one and the same method set: binding one to the other is not a self-binding;
+	// binding an interface to itself (also through an alias) is
+	for variant := 0; variant < 5; variant++ {
+		for lib := 0; lib < 2; lib++ {
+			b := ir.NewBuilder()
+			p := b.Root
+			ip := p
+			if lib == 1 {
+				ip = b.Lib
+			}
+			rd := b.Iface(ip, "Reader")
+			src := b.Iface(p, "Source", rd)
+			src.Bare = true // type Source interface{ Reader }: same method set, another type
+			st := b.Leaf(ip, "Store")
+			st.Impls = []*ir.Type{rd}
+			st.PtrRecv = true
+			app := b.Leaf(p, "App")
+			items := []*ir.Item{ir.FuncItem(&ir.Func{Pkg: ip, Name: "NewStore", Out: ir.Ptr(st)}), ir.BindItem(rd, ir.Ptr(st))}
+			deps := []*ir.Type{src}
+			switch variant {
+			case 0: // Source bound to Reader (bound to *Store)
+				items = append(items, ir.BindItem(src, rd))
+			case 1: // written first
+				items = append([]*ir.Item{ir.BindItem(src, rd)}, items...)
+			case 2: // Source bound to *Store directly, Reader consumed too
+				items = append(items, ir.BindItem(src, ir.Ptr(st)))
+				deps = []*ir.Type{src, rd}
+			case 3: // Reader bound to itself: rejected
+				items = append(items, ir.BindItem(rd, rd))
+				deps = []*ir.Type{rd}
+			case 4: // Source bound to an alias of Source: rejected
+				items = append(items, ir.BindItem(src, b.Alias(p, "SourceAlias", src)))
+			}
+			items = append(items, ir.FuncItem(&ir.Func{Pkg: p, Name: "NewApp", Params: deps, Out: app}))
+			prog := &ir.Program{Root: p, Injectors: []*ir.Injector{{Name: "Init", Out: app, Items: items}}}
+			cs := &h.Case{ID: fmt.Sprintf("C11/same-method-set/variant=%d/lib=%d", variant, lib), Files: ir.Render(prog, true), Drive: true,
+				Judge: judgeProgramF(prog, true, map[string]bool{"wiring": true}, map[string]bool{"bad-bind": true, "bind-unprovided": true, "missing": true, "conflict": true})}
+			if c.NoteProgram(cs.Files) {
+				cases = append(cases, cs)
+			}
+		}
+	}
 	// chains: the bound "concrete" type is itself an interface bound in the same set; all consumers share one instance
 	permutations(3, func(perm []int) {
 		for mask := 1; mask < 8; mask++ {
